@@ -160,8 +160,21 @@ func c19RunRot(ctx *core.Ctx, in c19Input) {
 	stalled := false
 	// settle: deliver every due timer; return when the loop is parked on a timer that is not
 	// due or Run has returned.
+	// Work bound of one settle (one instant of the fake clock). Every scripted success may be
+	// past half-life and be renewed at once, so up to len(script) requests plus the first
+	// unscripted one (a failure, after which the loop must wait 10 s) can legitimately be made
+	// at one instant, with at most two timer deliveries each. A run that asks the issuer more
+	// often than that without the clock moving, or keeps arming timers that are already due, is
+	// itself the failing observation: the case is cut there.
+	runaway := false
+	maxReq := len(script) + 2
+	maxWakes := 4 * (len(script) + 4)
 	settle := func() {
 		end := time.Now().Add(livenessDeadline())
+		r.mu.Lock()
+		req0 := len(r.reqs)
+		r.mu.Unlock()
+		wakes := 0
 		for spin := 0; ; spin++ {
 			if runReturned() {
 				return
@@ -169,6 +182,13 @@ func c19RunRot(ctx *core.Ctx, in c19Input) {
 			if fc.nAfters() > handled {
 				a := fc.after(handled)
 				if a.dl <= fc.nowNs() {
+					r.mu.Lock()
+					nreq := len(r.reqs) - req0
+					r.mu.Unlock()
+					if wakes++; nreq > maxReq || wakes > maxWakes {
+						runaway = true
+						return
+					}
 					fc.Step(0) // fires the waiter if an earlier Step has not already done so
 					handled++
 					continue
@@ -256,24 +276,35 @@ func c19RunRot(ctx *core.Ctx, in c19Input) {
 
 	settle()
 	observe()
+	// the case term always carries the whole script of operations: a run that was cut has fewer
+	// observations than points, which the oracle refuses
 	var coqOps []string
+	var ops []c19Op
 	for _, op := range in.Ops {
-		switch op.K {
-		case "adv":
-			if op.D < 0 {
-				continue
-			}
-			fc.Step(time.Duration(op.D))
+		switch {
+		case op.K == "adv" && op.D >= 0:
 			coqOps = append(coqOps, fmt.Sprintf("OpAdv %s", hx.CoqZ(op.D)))
-		case "cancel":
-			runCancel()
-			cancelled = true
+		case op.K == "cancel":
 			coqOps = append(coqOps, "OpCancel")
-		case "ta":
-			ta.bump()
+		case op.K == "ta":
 			coqOps = append(coqOps, "OpTA")
 		default:
 			continue
+		}
+		ops = append(ops, op)
+	}
+	for _, op := range ops {
+		if runaway || stalled {
+			break // cut: one observation with the excess, then the case ends
+		}
+		switch op.K {
+		case "adv":
+			fc.Step(time.Duration(op.D))
+		case "cancel":
+			runCancel()
+			cancelled = true
+		case "ta":
+			ta.bump()
 		}
 		settle()
 		observe()
@@ -315,6 +346,10 @@ func c19RunRot(ctx *core.Ctx, in c19Input) {
 	c.Observed = map[string]any{"requests": nreq, "obs": coqObs}
 	c.Coq = fmt.Sprintf("CRot %s %s %s %s %s", hx.CoqZ(in.T0), hx.CoqBool(in.UseDir), hx.CoqList(coqScript),
 		hx.CoqList(coqOps), hx.CoqList(coqObs))
+	if runaway {
+		c.Note = "cut: the loop kept asking the issuer / re-arming due timers without the clock moving"
+		ctx.Sink.Count("rot/runaway_cut")
+	}
 	if stalled {
 		c.Direct, c.Note = 2, "rotation loop neither parked on the clock nor returned within the deadline"
 	}
